@@ -93,6 +93,10 @@ func runLZMAWrite(c caseC06) (*lzmaRun, *ev.Failure) {
 	if !c.ByteSink {
 		sink = noByteSink{&buf}
 	}
+	if len(data)%4 == 1 {
+		// an earlier writer of the same configuration, closed or abandoned
+		priorWrite(func(s io.Writer) (io.WriteCloser, error) { return c.Cfg.W1().NewWriter(s) }, 1+len(data)%9000)
+	}
 	w, err := c.Cfg.W1().NewWriter(sink)
 	if err != nil {
 		return nil, ev.Fail("NewWriter: "+err.Error(), "stage", "newwriter", "matcher", m)
